@@ -353,6 +353,11 @@ func generate(w *world, seed int64, tier string, search bool) []string {
 				emit("MSM " + g.name + " " + strings.Join(ts, " "))
 			}
 		}
+		// window-width boundaries of the bucket path: w = bits.Len(n) changes at n = 2^k; a slip in the window
+		// extraction (e.g. a byte-typed shift) only shows once w > 8, i.e. for n >= 256
+		if g.msm != nil && g.msmRaw != nil && (g.name == "k256" || g.name == "ed25519/full" || thorough || search) {
+			w.boundaryMSM(g, pool, rnd, r, emit, g.name != "ed25519/full")
+		}
 		if g.msmRaw != nil {
 			for _, n := range []int{0, 1, 3, 7, 8, 9, 16, 33} {
 				for rep := 0; rep < 1+scale/4; rep++ {
@@ -569,4 +574,96 @@ func (w *world) msmTerms(g *group, pool, rnd []pitem, r *vh.Rng, n int, light bo
 		prev = p
 	}
 	return ts
+}
+
+func goWindowBits(n int) int {
+	w := 0
+	for x := n; x > 0; x >>= 1 {
+		w++
+	}
+	if w < 2 {
+		w = 2
+	}
+	if w > 16 {
+		w = 16
+	}
+	return w
+}
+
+func le2(v int) string { return vh.Hex([]byte{byte(v), byte(v >> 8)}) }
+
+// boundaryMSM emits multi-scalar cases of the lengths 2^k-1, 2^k, 2^k+1 (k = 3..10) with small structured
+// scalars so that the references stay cheap: a single power of two in an otherwise zero vector, 16-bit random
+// values, ones, zeros and a few full-width scalars.  Above 48 terms the Coq side evaluates the bucket-algorithm
+// model only (MSMC); the naive sum comes from the math/big reference, and from the Coq naive model up to 257 terms.
+func (w *world) boundaryMSM(g *group, pool, rnd []pitem, r *vh.Rng, emit func(string), full bool) {
+	G := pool[1].text
+	var subs []pitem
+	for _, p := range append(append([]pitem{}, pool...), rnd...) {
+		if p.sub {
+			subs = append(subs, p)
+		}
+	}
+	pick := func() string { return vh.Pick(r, subs).text }
+	for k := 3; k <= 10; k++ {
+		for _, n := range []int{1<<k - 1, 1 << k, 1<<k + 1} {
+			wb := goWindowBits(n)
+			suffix := "C"
+			if n <= 48 {
+				suffix = ""
+			}
+			// (a) one power of two hitting the top bit of the first window, all points G
+			//     (n = 256: the scalars (256, 0, ..., 0))
+			wit := make([]string, n)
+			witK := make([]string, n)
+			pos := r.Intn(n)
+			if k%2 == 0 {
+				pos = 0
+			}
+			for i := range wit {
+				wit[i] = "0000;" + G
+				witK[i] = "0;" + G
+			}
+			wit[pos] = le2(1<<(wb-1)) + ";" + G
+			witK[pos] = hexZ(big.NewInt(int64(1)<<(wb-1))) + ";" + G
+			// (b) 16-bit random scalars, ones, zeros; random subgroup points
+			rndB := make([]string, n)
+			rndK := make([]string, n)
+			for i := range rndB {
+				v := int(r.Uint64() & 0xffff)
+				switch r.Intn(8) {
+				case 0:
+					v = 0
+				case 1:
+					v = 1
+				case 2:
+					v = 1 << uint(r.Intn(16))
+				}
+				p := pick()
+				rndB[i] = le2(v) + ";" + p
+				rndK[i] = hexZ(big.NewInt(int64(v))) + ";" + p
+			}
+			// a few full-width scalars for the Curve.MultiScalarMul cases
+			mixK := append([]string{}, rndK...)
+			for j := 0; j < 3 && j < n; j++ {
+				i := r.Intn(n)
+				mixK[i] = hexZ(r.BigBelow(g.n)) + ";" + strings.SplitN(mixK[i], ";", 2)[1]
+			}
+			if full {
+				emit("LMSM" + suffix + " " + g.name + " " + strings.Join(wit, " "))
+			}
+			emit("LMSM" + suffix + " " + g.name + " " + strings.Join(rndB, " "))
+			emit("MSMR " + g.name + " " + strings.Join(witK, " "))
+			if n <= 257 {
+				emit("MSMN " + g.name + " " + strings.Join(mixK, " "))
+			} else {
+				emit("MSMR " + g.name + " " + strings.Join(mixK, " "))
+			}
+			if full {
+				emit("AUMSM" + suffix + " " + g.name + " " + strings.Join(rndK, " "))
+			} else {
+				emit("AUMSM" + suffix + " " + g.name + " " + strings.Join(witK, " "))
+			}
+		}
+	}
 }
